@@ -238,3 +238,10 @@ declare i32 @h(i8)
 @h = global i32 1
 @a = alias i32, i32* select (i1 true, i32* @g, i32* @h)
 @b = alias i32, i32* select (i1 false, i32* @g, i32* @h)
+;;; ATOM global/attributes-and-metadata
+@counter = global i32 0, align 4, !annotation !0 #0
+@named = global i32 0, section "s", align 4, !annotation !0, !other !1 "k"="v" "flag"
+@plain = global i32 0 #0
+attributes #0 = { "var-attr" }
+!0 = !{!"a"}
+!1 = !{!"b"}
